@@ -144,6 +144,30 @@ def axis_cases(ao, printed):
     return bad, n
 
 
+def reuse_cases(ao):
+    """the same altitude / wind grid object reused for several wavelengths and profiles: every call must stand on its own"""
+    from aotools.turbulence import atmos_conversions as ac
+    bad = []
+    h = np.linspace(100.0, 15000.0, 6)
+    v = np.linspace(5.0, 30.0, 6)
+    cn2 = np.array([5.0, 3.0, 2.0, 1.0, 1.0, 0.5]) * 1e-15
+    n = 0
+    for name, f, grid in (("coherenceTime", ac.coherenceTime, v), ("isoplanaticAngle", ac.isoplanaticAngle, h), ("rytov_variance", ac.rytov_variance, h)):
+        keep = grid.copy()
+        for lam in (5e-7, 1e-6, 5e-7):
+            for prof in (cn2, 2 * cn2):
+                got = float(f(prof, grid, lam))
+                want = float(f(prof.copy(), keep.copy(), lam))
+                n += 1
+                if not np.array_equal(grid, keep):
+                    bad.append(("%s:grid-argument-modified" % name, dict(lam=lam)))
+                    return bad, n
+                if abs(got - want) > 1e-13 * abs(want):
+                    bad.append(("%s:depends-on-earlier-calls" % name, dict(lam=lam, got=got, expected=want)))
+                    return bad, n
+    return bad, n
+
+
 def run(run):
     ao = core.import_aotools()
     quick = run.tier == "quick"
@@ -190,6 +214,10 @@ def run(run):
     ra = run.tlc("Units", cfg_text=cfg, label="Units/axis", require_actions=("AxisDone",), timeout=1200)
     if ra.violated:
         raise core.MachineryError("Units.tla (axis) violates %s" % ra.violated)
+    badr, nr = reuse_cases(ao)
+    run.traces += nr
+    for key, detail in badr:
+        run.violation(key, detail, dict(kind="reuse", detail=detail))
     bad, n = axis_cases(ao, ra.printed)
     run.traces += n
     for key, detail in bad:
